@@ -118,7 +118,8 @@ Init == l = 1 /\ c = [n |-> -1, sch |-> <<>>, start |-> 0, hdr |-> <<>>]
         /\ run = [inp |-> <<>>, cfg |-> <<>>, tag |-> "", start |-> 0]
         /\ r = InitReader /\ m = Trivial /\ skip = FALSE
 
-StepCase(e) == /\ c' = [n |-> e.n, sch |-> e.schema, start |-> l, hdr |-> e] /\ skip' = FALSE
+StepCase(e) == /\ c' = [n |-> e.n, sch |-> e.schema, start |-> l, hdr |-> e]
+               /\ skip' = (Mode \in {"L1", "LB"} /\ "big" \in DOMAIN e /\ e.big)      \* very long inputs: monitors only
                /\ run' = [inp |-> <<>>, cfg |-> <<>>, tag |-> "", start |-> 0] /\ r' = InitReader /\ m' = Trivial
 StepRun(e)  == /\ run' = [inp |-> e.input, cfg |-> CfgOf(e.cfg), tag |-> e.tag, start |-> l]
                /\ r' = InitReader
@@ -157,15 +158,10 @@ Explained(h, runs) ==
   IF Mode = "C08" /\ h.rel = "buf" /\ Dev!Listed("DEV_BUFFERED_EOF_NOCLOSE")
        /\ \A i \in 2..n : (P08!Rel(runs[1].evs, runs[i].evs) # "" =>
               /\ P08!FirstNonItem(runs[1].evs).res = "none"
-              /\ Dev!BufferedEofNoClose(runs[i].cfg, P08!FirstNonItem(runs[i].evs))
-              /\ P08!PrefixSame(P08!Unroll(P08!Items(runs[i].evs)), P08!Items(runs[1].evs), 1))
+              /\ LET u == P08!Unroll(P08!Items(runs[i].evs))  f == P08!Items(runs[1].evs) IN
+                 /\ P08!PrefixSame(u, f, 1) /\ Len(u) < Len(f)
+                 /\ Dev!BufferedEofNoClose(runs[i].cfg, P08!FirstNonItem(runs[i].evs), f[Len(u) + 1]))
        /\ \A j \in 2..n : P08!OnlyRequested(runs[j].evs, runs[j].cfg)
-  THEN "DEV_BUFFERED_EOF_NOCLOSE"
-  ELSE IF Mode = "C04" /\ h.rel = "sched" /\ Dev!Listed("DEV_BUFFERED_EOF_NOCLOSE")
-       /\ \A i \in 2..n : (P04!Rel(runs[1].evs, runs[i].evs) # "" =>
-              LET a == P04!Canon(runs[1].evs, 1, <<>>)  b == P04!Canon(runs[i].evs, 1, <<>>)
-                  d == CHOOSE k \in 1..(Len(b) + 1) : k > Len(b) \/ k > Len(a) \/ ~P04!ResSame(a[k], b[k]) IN
-              d <= Len(b) /\ Dev!BufferedEofNoClose(runs[i].cfg, b[d]) /\ \A k \in 1..(d - 1) : P04!ResSame(a[k], b[k]))
   THEN "DEV_BUFFERED_EOF_NOCLOSE"
   ELSE IF Mode = "C20" /\ h.rel = "sched" /\ Dev!Listed("DEV_ASYNC_STRADDLE")
        /\ \A i \in 2..n : ((IF runs[i].stream THEN P04!RelNoOff(runs[1].evs, runs[i].evs) ELSE P04!Rel(runs[1].evs, runs[i].evs)) # "" => runs[i].multi)
